@@ -116,6 +116,8 @@ pub fn alphabet(w: &World, pre: &PuObs) -> Vec<PuOp> {
                 ops.push(mk(A, &c.denom, odd, Some(DAY), None, None, None, Some(5000)));
                 ops.push(mk(A, &c.denom, even, Some(DAY), Some("mine".into()), None, None, Some(5000)));
                 ops.push(mk(A, &c.denom, odd, Some(DAY), None, Some(B), None, Some(5000))); // lock for someone else: refused
+                ops.push(mk(A, &c.denom, odd, Some(DAY), None, Some(PM), None, Some(5000))); // lock for the pool manager contract itself: refused
+                ops.push(mk(A, &c.denom, even, Some(DAY), None, Some(FM), None, Some(5000))); // lock for the farm manager contract: refused
                 ops.push(mk(A, &c.denom, odd, Some(1), None, None, None, Some(5000))); // farm manager rejects the duration
                 ops.push(mk(A, &c.denom, odd, Some(DAY), Some("bad id!".into()), None, None, Some(5000))); // farm manager rejects the identifier
                 ops.push(mk(A, &c.denom, r / 3 + 1, None, None, None, None, Some(0))); // inner swap rejected by its slippage limit
